@@ -39,16 +39,39 @@ def device_message(m: dict) -> tuple[int, bytes]:
     if k == "unknown":
         return m.get("id", 200), b"\x08\x01"
     if k == "garbage":
-        return msg_id("SensorStateResponse"), GARBAGE
+        return (msg_id(m["cls"]) if m.get("cls") else msg_id("SensorStateResponse")), GARBAGE
+    if k == "raw":  # a frame with an explicit type id (id sweeps); the specification sees kind m["as"]
+        return m["id"], PAYLOADS[m.get("pl", "empty")]
+    if msg_id(k) is not None:  # any other message of the protocol, by its api.proto name
+        return msg_id(k), PAYLOADS[m.get("pl", "empty")]
     raise ValueError(k)
+
+
+# payload classes that mean the same for every message type
+PAYLOADS = {
+    "empty": b"",
+    "unkf": b"\xc0\x3e\x01",  # field 1000, varint 1: decodable everywhere, an unknown field
+    "bad": b"\xc2\x3e\xff\x01",  # field 1000, length-delimited, 255 bytes announced, none present
+}
 
 
 def full_msg(m: dict) -> dict:
     """Uniform record shape for TLC."""
-    return {"k": m["k"], "major": m.get("major", 0), "name": m.get("name", ""), "invalid": m.get("invalid", False), "key": m.get("key", 0)}
+    k = m["k"]
+    if k == "raw":
+        k = m["as"]
+    return {"k": k, "major": m.get("major", 0), "name": m.get("name", ""), "invalid": m.get("invalid", False), "key": m.get("key", 0), "id": m.get("id", 0)}
 
 
 KIND_CLASS = {"A": "SensorStateResponse", "B": "BinarySensorStateResponse", "done": "ListEntitiesDoneResponse"}
+SHORT = {"SensorStateResponse": "A", "BinarySensorStateResponse": "B", "ListEntitiesDoneResponse": "done", "HelloResponse": "hello",
+         "ConnectResponse": "connect", "DisconnectRequest": "discreq", "DisconnectResponse": "discresp", "PingRequest": "pingreq",
+         "PingResponse": "pingresp", "GetTimeRequest": "timereq"}
+
+
+def kind_of_name(name: str) -> str:
+    """Kind string the specification uses for a message of the protocol."""
+    return SHORT.get(name, name)
 
 
 class ConnRun:
@@ -71,24 +94,36 @@ class ConnRun:
         self.loop.after_callback = self._after_callback
         self.last_proj = self._proj()
         self.harness_errors: list[str] = []
+        self.skipped = 0  # injected events whose precondition did not hold (nothing happened)
 
     # ------------------------------------------------------------ projection
     def _proj(self):
         w = self.w
         made = bool(w.tr is not None and w.tr._protocol_connected)
-        return (w.conn_state(), bool(w.conn.is_connected), w.sock_state(), w.tr_state(), tuple(w.stops), tuple(w.timers_ms()), made)
+        # a wildcard subscription (one callback for every message class) counts as one handler
+        seen_wild: set = set()
+        nh = 0
+        for v in w.conn._message_handlers.values():
+            for cb in v:
+                if getattr(cb, "_verif_wild", False):
+                    seen_wild.add(id(cb))
+                else:
+                    nh += 1
+        nh += len(seen_wild)
+        nw = len(w.conn._read_exception_futures)
+        return (w.conn_state(), bool(w.conn.is_connected), w.sock_state(), w.tr_state(), tuple(w.stops), tuple(w.timers_ms()), made, nh, nw)
 
-    def _log(self, cause: str, args: dict, idle: bool = False) -> None:
+    def _log(self, cause: str, args: dict, idle: bool = False, force: bool = False) -> None:
         w = self.w
         writes, deliv, _ = w.drain_step()
         # subscribers of ONE message are called in arbitrary (set) order: normalise per message
         groups: list[list] = []
         for dlv in deliv:
-            if groups and groups[-1][0][2] == dlv[2]:
+            if groups and groups[-1][0][2] is dlv[2]:
                 groups[-1].append(dlv)
             else:
                 groups.append([dlv])
-        deliv = [[g[0], g[1]] for grp in groups for g in sorted(grp)]
+        deliv = [[g[0], g[1]] for grp in groups for g in sorted(grp, key=lambda g: (g[0], g[1]))]
         done = []
         for op in w.poll_ops():
             res = []
@@ -97,7 +132,7 @@ class ConnRun:
             done.append([op.base, op.outcome, res])
         p = self._proj()
         changed = p != self.last_proj or writes or deliv or done
-        if cause == "int" and not changed:
+        if cause == "int" and not changed and not force:
             return
         if cause == "idle" and self.rows and self.rows[-1]["c"] == "idle" and not changed and self.rows[-1]["t"] == w.now_ms():
             return
@@ -113,6 +148,8 @@ class ConnRun:
                 "tr": p[3],
                 "sa": list(p[4]),
                 "pm": p[6],
+                "nh": p[7],
+                "nw": p[8],
                 "q": idle,
                 "tm": list(p[5]) if idle else [],
                 "w": [NAME_TO_REQ.get(n, n) for n in writes],
@@ -127,7 +164,9 @@ class ConnRun:
             self.cur = None
             self._log(cause, args)
         else:
-            self._log("int", {})
+            # a timer callback is always a row of its own (it may only fail a future, which
+            # shows later, when the task resumes)
+            self._log("int", {}, force=isinstance(handle, asyncio.TimerHandle))
 
     # ------------------------------------------------------------- injection
     def inject(self, cause: str, args: dict, fn) -> None:
@@ -137,6 +176,8 @@ class ConnRun:
             ok = fn()
             if ok is not False:
                 self.cur = (cause, args)
+            else:
+                self.skipped += 1
 
         self.loop.call_soon(cb)
 
@@ -196,7 +237,8 @@ class ConnRun:
                 return False
             c.hs_sent = True
             if res == "ok":
-                data = c.noise_hello() + c.noise_handshake()
+                # the server hello may or may not announce the device name
+                data = (c.noise_hello(name_override=None) if getattr(self, "noise_noname", False) else c.noise_hello()) + c.noise_handshake()
             elif res == "BadNameAPIError":
                 if w.params.expected_name is None:
                     return False
@@ -287,6 +329,19 @@ class ConnRun:
 
         self.inject("CancelCall", {"id": id_}, fn)
 
+    def ev_send(self, name: str):
+        conn = self.w.conn
+
+        def fn():
+            from aioesphomeapi.core import APIConnectionError
+
+            try:
+                conn.send_messages((pb(name),))
+            except APIConnectionError:
+                pass
+
+        self.inject("UserSend", {"n": name}, fn)
+
     def ev_sub(self, id_: int, kind: str, script: str):
         conn = self.w.conn
 
@@ -299,8 +354,12 @@ class ConnRun:
                 self.scripted = True
             from aioesphomeapi import api_pb2
 
-            cls = getattr(api_pb2, KIND_CLASS[kind])
-            self._add_sub(id_, kind, script, cls)
+            if kind == "*":
+                from aioesphomeapi.core import MESSAGE_TYPE_TO_PROTO
+
+                self._add_sub(id_, kind, script, tuple(MESSAGE_TYPE_TO_PROTO.values()))
+            else:
+                self._add_sub(id_, kind, script, (getattr(api_pb2, KIND_CLASS[kind]),))
 
         self.inject("UserSub", {"id": id_, "kind": kind, "script": script}, fn)
 
@@ -309,7 +368,8 @@ class ConnRun:
         state = {"script": script}
 
         def on_msg(msg, id_=id_):
-            self.w.step_deliv.append([id_, kind, id(msg)])
+            # keep the message object itself: identities must not be reused within a step
+            self.w.step_deliv.append([id_, kind_of_name(type(msg).__name__), msg])
             sc = state["script"]
             if sc == "unsub_self":
                 self.sub_unsubs.pop(id_)()
@@ -320,7 +380,9 @@ class ConnRun:
                 state["script"] = "none"
                 self._add_sub(id_ + 10, kind, "none", cls)
 
-        self.sub_unsubs[id_] = conn.add_message_callback(on_msg, (cls,))
+        if kind == "*":
+            on_msg._verif_wild = True
+        self.sub_unsubs[id_] = conn.add_message_callback(on_msg, cls)
         if not hasattr(self, "sub_kinds"):
             self.sub_kinds = {}
         self.sub_kinds[id_] = kind
@@ -363,6 +425,19 @@ class ConnRun:
         self.loop.set_time(target)
         self.settle()
 
+    def advance_excl(self, ms: int) -> None:
+        """Advance to now+ms firing only the timers due strictly before that instant: the next
+        injected event runs at that instant BEFORE the timers due at it (both orders at equal instants)."""
+        self.settle()
+        target = self.loop.time() + ms / 1000.0
+        while True:
+            nd = self.loop.next_deadline()
+            if nd is None or nd >= target - 1e-9:
+                break
+            self.loop.set_time(max(self.loop.time(), nd))
+            self.settle()
+        self.loop.set_time(target)
+
     def finish(self) -> dict:
         self.settle()
         tr = {"cfg": {"noise": self.cfg["noise"], "exp": self.cfg["exp"], "login": self.cfg["login"], "K": self.cfg["K"]}, "rows": self.rows}
@@ -371,6 +446,7 @@ class ConnRun:
         self.loop.after_callback = None
         self.w.close()
         tr["format_errors"] = errs
+        tr["skipped"] = self.skipped
         return tr
 
 
@@ -390,6 +466,10 @@ def run_schedule(cfg: dict, schedule: list, seed: int = 0) -> dict:
                 r.tick()
             elif kind == "adv":
                 r.advance(it[1])
+            elif kind == "advx":
+                r.advance_excl(it[1])
+            elif kind == "noname":
+                r.noise_noname = bool(it[1])
         return r.finish()
     except BaseException:
         r.loop.after_callback = None
@@ -541,4 +621,156 @@ def crash_point_family(cfgs: list, pairs: bool, rng: random.Random | None = None
                             out.append((cfg, sch))
     if limit is not None and rng is not None and len(out) > limit:
         out = rng.sample(out, limit)
+    return out
+
+
+# ------------------------------------------------------------------- C06
+def c06_family(quick: bool, rng: random.Random) -> list:
+    """hello/login verdicts: version x name x password verdict x response order x chunking x configuration."""
+    out = []
+    majors = (0, 1, 2, 3, 4) if not quick else (1, 2, 3)
+    for noise in (False, True):
+        for exp in ("none", "dev"):
+            for login in (False, True):
+                for password in ((False, True) if login else (False,)):
+                    cfg = dict(noise=noise, exp=exp, login=login, K=20000, password=password)
+                    for major in majors:
+                        for name in ("dev", "oth", ""):
+                            hello = {"k": "hello", "major": major, "name": name}
+                            for connect in ([{"k": "connect", "invalid": False}, {"k": "connect", "invalid": True}] if login else [None]):
+                                orders = [[hello] + ([connect] if connect else [])]
+                                if connect:
+                                    orders += [[connect, hello], [hello], [connect]]
+                                for order in orders:
+                                    for split in ((False, True) if len(order) > 1 else (False,)):
+                                        for noname in ((False, True) if noise else (False,)):
+                                            for trail in ([], [{"k": "discreq"}], [{"k": "A", "key": 1}]):
+                                                if trail and (split or quick and rng.random() < 0.6):
+                                                    continue
+                                                st = [("ev", "start"), ("idle",), ("ev", "resolve", "ok"), ("idle",), ("ev", "tcp", "ok"), ("idle",), ("ev", "finish", login), ("idle",)]
+                                                if noise:
+                                                    st += [("noname", noname), ("ev", "handshake", "ok"), ("idle",)]
+                                                if split:
+                                                    st += [("ev", "chunk", [order[0]]), rng.choice([("iter", 1), ("idle",)]), ("ev", "chunk", order[1:] + trail)]
+                                                else:
+                                                    st += [("ev", "chunk", order + trail)]
+                                                st += [("idle",), ("ev", "chunk", [{"k": "A", "key": 2}]), ("idle",), ("tick",), ("tick",), ("tick",)]
+                                                out.append((cfg, st))
+    # Noise: the name announced in the server hello is checked as well
+    for login in (False, True):
+        cfg = dict(noise=True, exp="dev", login=login, K=20000)
+        for res in ("BadNameAPIError", "InvalidEncryptionKeyAPIError", "HandshakeAPIError"):
+            st = [("ev", "start"), ("idle",), ("ev", "resolve", "ok"), ("idle",), ("ev", "tcp", "ok"), ("idle",), ("ev", "finish", login), ("idle",), ("ev", "handshake", res),
+                  ("idle",), ("tick",), ("tick",)]
+            out.append((cfg, st))
+    return out
+
+
+def happy_connect(cfg: dict) -> list:
+    st = [("ev", "start"), ("idle",), ("ev", "resolve", "ok"), ("idle",), ("ev", "tcp", "ok"), ("idle",), ("ev", "finish", cfg["login"]), ("idle",)]
+    if cfg["noise"]:
+        st += [("ev", "handshake", "ok"), ("idle",)]
+    hello = [{"k": "hello", "major": 1, "name": "dev"}] + ([{"k": "connect", "invalid": False}] if cfg["login"] else [])
+    return st + [("ev", "chunk", hello), ("idle",)]
+
+
+# ------------------------------------------------------------------- C10
+KA_TRAFFIC = [{"k": "pingresp"}, {"k": "A", "key": 1}, {"k": "B"}, {"k": "pingreq"}, {"k": "unknown", "id": 250}, {"k": "unknown", "id": 0}]
+
+
+def c10_family(quick: bool, rng: random.Random, n: int) -> list:
+    """Arrival schedules on a K/16 grid (both orders at equal instants), several K, client-side sends that must not count."""
+    out = []
+    for i in range(n):
+        K = rng.choice((500, 4000, 15000, 20000, 60000))
+        cfg = dict(noise=rng.random() < 0.3, exp="none", login=rng.random() < 0.3, K=K)
+        g = K // 16 if K % 16 == 0 else K // 10
+        periods = rng.choice((8, 12, 20, 40)) if quick else rng.choice((12, 40, 100, 200))
+        # arrival probability per grid point: from chatty to (almost) silent; may change once
+        p1 = rng.choice((0.0, 0.002, 0.01, 0.03, 0.1, 0.4))
+        p2 = rng.choice((p1, 0.0, 0.0, 0.05))
+        p_send = rng.choice((0.0, 0.0, 0.05, 0.2))
+        switch = rng.randrange(0, periods * (K // g))
+        st = happy_connect(cfg)
+        steps = periods * (K // g)
+        pending = 0
+        for j in range(steps):
+            pending += g
+            p = p1 if j < switch else p2
+            r = rng.random()
+            if r < p:
+                # on tick instants both orders are tried: before the timers due now, or after
+                st.append(("advx" if rng.random() < 0.5 else "adv", pending))
+                pending = 0
+                m = rng.choice(KA_TRAFFIC) if rng.random() < 0.8 else rng.choice(KA_TRAFFIC[:2])
+                st.append(("ev", "chunk", [m] if rng.random() < 0.8 else [m, rng.choice(KA_TRAFFIC)]))
+                st.append(rng.choice([("idle",), ("iter", 1)]))
+            elif r < p + p_send:
+                st.append(("advx" if rng.random() < 0.5 else "adv", pending))
+                pending = 0
+                st.append(("ev", "send", "SwitchCommandRequest"))
+                st.append(("idle",))
+        st += [("adv", pending), ("idle",)]
+        if rng.random() < 0.5:
+            st += [("adv", 7 * K), ("idle",)]
+        out.append((cfg, st))
+    return out
+
+
+# ------------------------------------------------------------------- C12
+def c12_sweep_family(quick: bool, rng: random.Random) -> list:
+    """Type-id sweeps: every id of the protocol and ids the protocol does not define, payload classes,
+    both framings; a '*' subscriber records which class each id was decoded as."""
+    from .world import schema
+
+    _, byid, _ = schema()
+    n = max(byid)
+    out = []
+    undefined = [0, n + 1, n + 2, n + 3, n + 4, n + 5, 127, 128, 255, 256, 16383, 16384, 65535]
+    undefined = [i for i in undefined if i not in byid]
+    big = [65536, 2**31 - 1]
+    for noise in (False, True):
+        cfg = dict(noise=noise, exp="none", login=False, K=20000)
+        for pl in ("empty", "unkf"):
+            st = happy_connect(cfg) + [("ev", "sub", 9, "*", "none"), ("ev", "sub", 1, "A", "none"), ("idle",)]
+            ids = sorted(byid)
+            disc = [i for i in ids if byid[i] == "DisconnectRequest"]
+            ids = [i for i in ids if byid[i] != "DisconnectRequest"]
+            seq = []
+            for i in ids:
+                seq.append({"k": "raw", "id": i, "as": kind_of_name(byid[i]), "pl": pl})
+                if rng.random() < 0.3:
+                    u = rng.choice(undefined + ([] if noise else big))
+                    seq.append({"k": "raw", "id": u, "as": "unknown", "pl": pl})
+            # keep-alive sensitivity: after a tick with a ping in flight an undefined id must change nothing
+            st += [("tick",), ("tick",)]
+            pos = 0
+            while pos < len(seq):
+                k = rng.choice((1, 1, 2, 3, 5))
+                st += [("ev", "chunk", seq[pos : pos + k]), rng.choice([("idle",), ("iter", 1), ("idle",)])]
+                pos += k
+            st += [("idle",), ("ev", "chunk", [{"k": "raw", "id": u, "as": "unknown", "pl": pl} for u in undefined + ([] if noise else big)]), ("idle",)]
+            st += [("tick",), ("ev", "chunk", [{"k": "raw", "id": 0, "as": "unknown", "pl": "empty"}]), ("idle",), ("tick",)]
+            st += [("ev", "chunk", [{"k": "raw", "id": disc[0], "as": "discreq", "pl": pl}, {"k": "A", "key": 1}]), ("idle",), ("tick",)]
+            out.append((cfg, st))
+        # an undecodable payload of a known type closes the connection with a protocol error
+        ids = sorted(byid) if not quick else rng.sample(sorted(byid), 24)
+        for i in ids:
+            st = happy_connect(cfg) + [("ev", "sub", 9, "*", "none"), ("idle",)]
+            st += [("ev", "chunk", [{"k": "A", "key": 1}, {"k": "garbage", "cls": byid[i]}, {"k": "A", "key": 2}]), ("idle",), ("tick",)]
+            out.append((cfg, st))
+        # an undecodable payload under an undefined id is still just ignored
+        st = happy_connect(cfg) + [("ev", "sub", 9, "*", "none"), ("idle",)]
+        st += [("ev", "chunk", [{"k": "raw", "id": u, "as": "unknown", "pl": "bad"} for u in undefined]), ("idle",), ("ev", "chunk", [{"k": "A", "key": 1}]), ("idle",)]
+        out.append((cfg, st))
+    if not quick:
+        # every undefined id up to 65535 (plaintext and Noise), 512 per chunk
+        for noise in (False, True):
+            cfg = dict(noise=noise, exp="none", login=False, K=20000)
+            st = happy_connect(cfg) + [("ev", "sub", 9, "*", "none"), ("idle",), ("tick",), ("tick",)]
+            allu = [i for i in range(0, 65536) if i not in byid]
+            for pos in range(0, len(allu), 512):
+                st += [("ev", "chunk", [{"k": "raw", "id": u, "as": "unknown", "pl": "unkf"} for u in allu[pos : pos + 512]]), ("iter", 1)]
+            st += [("idle",), ("ev", "chunk", [{"k": "A", "key": 1}]), ("idle",)]
+            out.append((cfg, st))
     return out
